@@ -407,13 +407,14 @@ func c02Check(sc *c02Scn, st *c02State, r *mc.Result) mc.Verdict {
 		}
 		if runOK {
 			found := false
+			// a run of its own: one that starts at the request or later and is not simply the next tick
 			for _, t := range st.runs {
-				if t >= runAt {
+				if t == runAt || (t > runAt && t%sc.T != 0) {
 					found = true
 				}
 			}
 			if !found {
-				return fail("run-reported-success-but-dropped", "RunJob on a periodic job reported success but no run followed")
+				return fail("run-reported-success-but-dropped", "RunJob on a periodic job reported success but no run followed (beyond the ticks that would have run anyway)")
 			}
 		}
 		for k := int64(1); k*sc.T <= sc.horizon-sec; k++ {
